@@ -30,6 +30,11 @@ def gen_many(rng):
     for i in range(n):
         nm = rng.choice(NAMES)
         added.append((nm, b"added-%d" % i + rng.choice([b"", b"", b"-caf\xe9", b"-\xff\xfe\x80", b"-\xc3\xa9", b" \t x"])))
+    if added and len(added) <= 56 and rng.random() < 0.4:
+        # the very same (name, value) pair added again (the same cookie from two jars, accept twice): every addition is a field
+        for _ in range(rng.choice([1, 1, 2, 3])):
+            k, v = rng.choice(added)
+            added.insert(rng.randrange(0, len(added) + 1), (rng.choice([k, k, k.upper()]), v))
     if rng.random() < 0.3:
         # identical to a header of the original request
         added.insert(rng.randrange(0, len(added) + 1), rng.choice([(b"accept", b"orig-accept"), (b"x-orig", b"o1"), (b"X-Orig", b"o1")]))
